@@ -1939,6 +1939,96 @@ Lemma wrap_line_repaired_examples :
 Proof. repeat split; vm_compute; reflexivity. Qed.
 
 (* ------------------------------------------------------------------ *)
+(* 8b. the title and the message block *)
+Lemma slen_take_le : forall n s, slen (take n s) <= n.
+Proof. intros n s. rewrite slen_take. lia. Qed.
+
+Lemma take_all : forall n s, slen s <= n -> take n s = s.
+Proof.
+  induction n as [|n IH]; intros s H.
+  - destruct s; [reflexivity | unfold slen in H; simpl in H; lia].
+  - destruct s as [|a s]; [reflexivity|]. simpl. rewrite IH; [reflexivity | unfold slen in *; simpl in H; lia].
+Qed.
+
+(* the title line fits, and it is a prefix of the title *)
+Lemma title_line_width : forall W t, 1 <= W -> slen (title_line W t) < W.
+Proof. intros W t HW. unfold title_line. pose proof (slen_take_le (W - 1) t). lia. Qed.
+
+Lemma title_line_prefix : forall W t, title_line W t ++ drop (W - 1) t = t.
+Proof. intros W t. unfold title_line. apply take_drop. Qed.
+
+(* the title is written unchanged exactly when it is shorter than the limit: a title that fills all W columns
+   loses its last character (known finding F-C01-spec-title-last-column; the model is the code) *)
+Lemma title_line_kept_iff : forall W t, title_line W t = t <-> slen t <= W - 1.
+Proof.
+  intros W t. unfold title_line. split.
+  - intros E. rewrite <- E. apply slen_take_le.
+  - apply take_all.
+Qed.
+
+Lemma title_full_width_cut : exists W t, slen t = W /\ title_line W t <> t.
+Proof. exists 5, "abcde". split; [reflexivity | vm_compute; discriminate]. Qed.
+
+(* every line of the written message block fits: the first with its "MESSAGE: " prefix, the others, and the blank
+   line that ends the block *)
+Lemma message_lines_width : forall W lines, 10 <= W -> Forall (fun x => slen x < W) (message_lines W lines).
+Proof.
+  intros W lines HW. unfold message_lines. destruct lines as [|l0 r].
+  - constructor; [unfold slen; simpl; lia | constructor].
+  - constructor.
+    + rewrite slen_app. pose proof (slen_take_le (W - 10) l0). unfold message_prefix, slen at 1. simpl. lia.
+    + apply Forall_app. split.
+      * rewrite Forall_forall. intros x Hx. apply in_map_iff in Hx. destruct Hx as (y & <- & _).
+        pose proof (slen_take_le (W - 1) y). lia.
+      * constructor; [unfold slen; simpl; lia | constructor].
+Qed.
+
+(* the block keeps its lines: one written line per message line, then the blank line; every written line is the
+   prefix of its message line (the first after "MESSAGE: ") *)
+Lemma message_lines_shape : forall W lines,
+  List.length (message_lines W lines) = S (List.length lines) /\
+  List.last (message_lines W lines) "x" = "" /\
+  match lines with
+  | [] => True
+  | l0 :: r =>
+      exists cut0 cuts,
+        message_lines W lines = (message_prefix ++ cut0) :: List.app cuts [""] /\
+        cut0 ++ drop (W - 10) l0 = l0 /\
+        Forall2 (fun c l => c ++ drop (W - 1) l = l) cuts r
+  end.
+Proof.
+  intros W lines. unfold message_lines. destruct lines as [|l0 r].
+  - repeat split.
+  - split; [cbn [List.length]; rewrite app_length, map_length; simpl; lia|]. split.
+    + change (List.last ((message_prefix ++ take (W - 10) l0) :: (map (take (W - 1)) r ++ [""])%list) "x")
+        with (List.last ((message_prefix ++ take (W - 10) l0) :: (map (take (W - 1)) r ++ [""])%list) "x").
+      rewrite (app_comm_cons (map (take (W - 1)) r) [""] (message_prefix ++ take (W - 10) l0)).
+      apply last_last.
+    + exists (take (W - 10) l0), (map (take (W - 1)) r). split; [reflexivity|]. split; [apply take_drop|].
+      induction r as [|x r IH]; [constructor|]. constructor; [apply take_drop | exact IH].
+Qed.
+
+(* a block whose lines all fit is written as it is *)
+Lemma message_lines_identity : forall W l0 r,
+  slen l0 <= W - 10 -> Forall (fun l => slen l <= W - 1) r ->
+  message_lines W (l0 :: r) = (message_prefix ++ l0) :: List.app r [""].
+Proof.
+  intros W l0 r H0 Hr. unfold message_lines. rewrite (take_all _ _ H0). f_equal. f_equal.
+  induction Hr as [|x r Hx _ IH]; [reflexivity|]. simpl. rewrite (take_all _ _ Hx), IH. reflexivity.
+Qed.
+
+(* the cut of the first line is needed: cutting it like the other lines and putting the prefix in front afterwards
+   (seeded change C10-6) writes a line that is too long *)
+Lemma message_first_line_cut_needed :
+  exists W l0, 10 <= W /\ W < slen (message_prefix ++ take (W - 1) l0).
+Proof. exists 12, "abcdefghijklmnop". split; [lia | vm_compute; lia]. Qed.
+
+Lemma message_lines_example :
+  message_lines 20 ["outp=abcdefghijklm.o"; " runtpe=abcdefghijklmnopq.r"; "x"] =
+    ["MESSAGE: outp=abcde"; " runtpe=abcdefghijk"; "x"; ""].
+Proof. vm_compute. reflexivity. Qed.
+
+(* ------------------------------------------------------------------ *)
 (* 9. non-vacuity *)
 Lemma wrap_width_example :
   wrap_chunks 20 "" (blanks 5) (split_ws "1 0 -1 2 -3 4 -5 6 imp:n=1 vol=12345")
